@@ -142,3 +142,22 @@ Proof. vm_compute. reflexivity. Qed.
 (* the trace specification discriminates: a second watcher build without a new change *)
 Example ex_watch_bad : wtrace_ok 0 [WEdit; WBuild 1; WBuild 2] = false.
 Proof. vm_compute. reflexivity. Qed.
+
+(* ---- two overlapping Watch calls: exactly one succeeds, and the one that
+   fails may be observed to return first (the history of soak seed 3) ---- *)
+Example ex_watch_overlap_ok : history_ok
+  [LCall 0 OpWatch; LCall 1 OpWatch; LRet 1 OpWatch RvErr; LRet 0 OpWatch RvUnit;
+   LCall 2 OpRebuild; LCall 3 OpDispose] = true.
+Proof. vm_compute. reflexivity. Qed.
+(* the model produces such a trace: call 0 sets the flag, call 1 fails and returns before call 0 returns *)
+Example ex_watch_overlap_model :
+  option_map snd (exec_all init [ACall OpWatch; ACall OpWatch; AStep 0%nat; AStep 1%nat; AStep 1%nat; AStep 0%nat]) =
+  Some [LCall 0 OpWatch; LCall 1 OpWatch; LTau; LTau; LRet 1 OpWatch RvErr; LRet 0 OpWatch RvUnit].
+Proof. vm_compute. reflexivity. Qed.
+(* still tight: a lone failing Watch, two overlapping Watch calls that both fail, or both succeed *)
+Example ex_watch_lone_fail : history_ok [LCall 0 OpWatch; LRet 0 OpWatch RvErr] = false.
+Proof. vm_compute. reflexivity. Qed.
+Example ex_watch_both_fail : history_ok [LCall 0 OpWatch; LCall 1 OpWatch; LRet 1 OpWatch RvErr; LRet 0 OpWatch RvErr] = false.
+Proof. vm_compute. reflexivity. Qed.
+Example ex_watch_both_succeed : history_ok [LCall 0 OpWatch; LCall 1 OpWatch; LRet 1 OpWatch RvUnit; LRet 0 OpWatch RvUnit] = false.
+Proof. vm_compute. reflexivity. Qed.
